@@ -281,6 +281,12 @@ def decorate(behs, rnd, params):
             b = [dict(e, minconf=rnd.choice([0, 1, 1, 2, 4])) if e.get("ev") == "refresh" and "minconf" not in e else e for e in b]
             behs3.append(b)
         behs = behs3
+    # ... and a share of the cancels is called as an API user calls it, with no refresh of the driver's before it
+    rshare = params.get("raw_cancel_share", 0.35)
+    behs6 = []
+    for b in behs:
+        behs6.append([dict(e, raw=True) if e.get("ev") == "cancel" and rnd.random() < rshare else e for e in b])
+    behs = behs6
     # ... and somebody holding the rewind hash of a wallet's seed looks at the chain (view wallet: reads only)
     vshare = params.get("view_share", 0.25)
     behs4 = []
